@@ -868,7 +868,22 @@ def r2_r3(program, rep):
             pp[1][2] == ("const", 0)) or (
         pp[0] == "call" and pp[1] == ("attr", ("global", "dict"),
                                       "fromkeys") and
-        len(pp[2]) == 2 and pp[2][1] == ("const", 0))
+        len(pp[2]) == 2 and pp[2][1] == ("const", 0)) or (
+        # dict(zip(resources, repeat(0))) / dict((r, 0) for r in resources)
+        pp[0] == "call" and pp[1] == ("global", "dict") and
+        len(pp[2]) == 1 and not pp[3] and (
+            (pp[2][0][0] == "call" and pp[2][0][1] == ("global", "zip") and
+             len(pp[2][0][2]) == 2 and pp[2][0][2][1][0] == "call" and
+             pp[2][0][2][1][1][-1] == "repeat" and
+             pp[2][0][2][1][2] == (("const", 0),)) or
+            (pp[2][0][0] in ("genexp", "listcomp") and
+             pp[2][0][1][0] == "tuple" and len(pp[2][0][1]) == 3 and
+             pp[2][0][1][2] == ("const", 0))))
+    if okp and not zero and not any(
+            st_[0] == "const" and isinstance(st_[1], (int, float)) and
+            not isinstance(st_[1], bool) for st_ in subterms(pp)):
+        raise AnalysisError("allocate: what the pointers of a chip start at "
+                            "is not read in this form")
     rep.check(okp and zero, "C05-R3", inst, "pointers are re-created (at 0) "
               "for every chip and shared by the vertices of that chip",
               construct="pointer scope", node=fn,
